@@ -125,3 +125,26 @@ package checks
 //@   at call append#15 assert countOK && lastCount <= 0
 //@   at call append#16 assert countOK && lastCount <= 0
 //@   at call append#17 assert countOK && lastCount <= 0
+
+// ---------------------------------------------------------------------------------------------
+// C01 (partial): what Prometheus' loader rejects at the level of one rule draws a blocking (Bug or Fatal) problem
+// from the check responsible for it: an unparsable `for` / `keep_firing_for` duration, a PromQL syntax error, a
+// rule the parser marked as broken.
+//@ spec func blocking(ps []Problem) bool = exists i int :: 0 <= i && i < len(ps) && (ps[i].Severity == Bug || ps[i].Severity == Fatal)
+//@ func AlertsForChecksFor.checkField [C01]
+//@   requires value != nil
+//@   ensures !durationParses(value.Value) ==> blocking(result)
+//@   ensures modifiesNone(result)
+//@ func AlertsForChecksFor.Check [C01]
+//@   option elemlinks split
+//@   ensures entry.Rule.AlertingRule != nil && entry.Rule.AlertingRule.For != nil && !durationParses(entry.Rule.AlertingRule.For.Value) ==> blocking(result)
+//@   ensures entry.Rule.AlertingRule != nil && entry.Rule.AlertingRule.KeepFiringFor != nil && !durationParses(entry.Rule.AlertingRule.KeepFiringFor.Value) ==> blocking(result)
+//@ spec func exprOf(r parser.Rule) parser.PromQLExpr = r.RecordingRule != nil ? r.RecordingRule.Expr : r.AlertingRule.Expr
+//@ func SyntaxCheck.Check [C01]
+//@   ensures exprOf(entry.Rule).SyntaxError != nil ==> blocking(result)
+//@ func parseRuleError [C01]
+//@   ensures err == nil ==> result.Severity == Fatal
+//@ func NewErrorCheck [C01]
+//@   ensures entry.PathError == nil ==> result.problem.Severity == Fatal
+//@ func ErrorCheck.Check [C01]
+//@   ensures len(result) == 1 && result[0].Severity == c.problem.Severity
